@@ -23,6 +23,8 @@ import (
 	"github.com/prometheus/prometheus/model/labels"
 	"github.com/prometheus/prometheus/promql/parser"
 
+	"github.com/thanos-community/promql-engine/api"
+	"github.com/thanos-community/promql-engine/engine"
 	"github.com/thanos-community/promql-engine/logicalplan"
 )
 
@@ -245,11 +247,44 @@ func topkTies(n *parser.AggregateExpr, c *Case) bool {
 	return false
 }
 
+// the partition each remote engine of the current distributed case reads
+var distParts = map[api.RemoteEngine][]SeriesData{}
+
 // translate turns the preprocessed plan into a Trees.jtree term.
 func translateTree(e parser.Expr, c *Case, u *Universe) (string, bool) {
 	switch n := e.(type) {
 	case *parser.ParenExpr:
 		return translateTree(n.Expr, c, u)
+	case logicalplan.Coalesce:
+		if len(n.Expressions) == 0 {
+			return "", false
+		}
+		acc, ok := translateTree(n.Expressions[0], c, u)
+		for _, x := range n.Expressions[1:] {
+			t, ok2 := translateTree(x, c, u)
+			acc, ok = fmt.Sprintf("(JConcat %s %s)", acc, t), ok && ok2
+		}
+		return acc, ok
+	case *logicalplan.RemoteExecution:
+		part, known := distParts[n.Engine]
+		if !known {
+			return "", false
+		}
+		sub, err := parser.ParseExpr(n.Query)
+		if err != nil {
+			return "", false
+		}
+		pend := c.Window.End
+		if c.Window.Instant() {
+			pend = c.Window.Start
+		}
+		// the remote engine plans the subquery for the same window
+		lp := logicalplan.New(sub, time.UnixMilli(c.Window.Start), time.UnixMilli(pend)).Optimize(logicalplan.NoOptimizers).Expr()
+		u.AddExpr(lp)
+		cc := *c
+		cc.Data = part
+		t, ok := translateTree(lp, &cc, u)
+		return fmt.Sprintf("(JRemote %s)", t), ok
 	case *parser.StepInvariantExpr:
 		t, ok := translateTree(n.Expr, c, u)
 		return fmt.Sprintf("(JInvariant %s)", t), ok
@@ -382,6 +417,7 @@ func cmdTreeCases(args []string) {
 	from := fs.Int("from", 0, "first")
 	to := fs.Int("to", 100, "last+1")
 	out := fs.String("out", "", "output .v file")
+	dist := fs.Bool("dist", false, "distributed engine over a random partition of the series")
 	must(fs.Parse(args))
 	o := genOptsFor("selector")
 	o.MaxSeries = 10
@@ -407,7 +443,28 @@ func cmdTreeCases(args []string) {
 		if w.Instant() {
 			pend = w.Start
 		}
-		lp := logicalplan.New(expr, time.UnixMilli(w.Start), time.UnixMilli(pend)).Optimize(logicalplan.NoOptimizers).Expr()
+		optimizers := logicalplan.NoOptimizers
+		var distEng queryMaker
+		if *dist {
+			// the series are dealt to 2 or 3 engines at random (a part may be empty)
+			k := 2 + r.Intn(2)
+			parts := make([][]SeriesData, k)
+			for _, sd := range c.Data {
+				j := r.Intn(k)
+				parts[j] = append(parts[j], sd)
+			}
+			eopts := engine.Opts{EngineOpts: promOpts(c.Cfg()), LogicalOptimizers: logicalplan.NoOptimizers}
+			remotes := make([]api.RemoteEngine, k)
+			distParts = map[api.RemoteEngine][]SeriesData{}
+			for j := range remotes {
+				remotes[j] = engine.NewLocalEngine(eopts, NewStore(parts[j]))
+				distParts[remotes[j]] = parts[j]
+			}
+			endpoints := api.NewStaticEndpoints(remotes)
+			distEng = engine.NewDistributedEngine(eopts, endpoints)
+			optimizers = []logicalplan.Optimizer{logicalplan.DistributedExecutionOptimizer{Endpoints: endpoints}}
+		}
+		lp := logicalplan.New(expr, time.UnixMilli(w.Start), time.UnixMilli(pend)).Optimize(optimizers).Expr()
 		u := NewUniverse()
 		u.AddExpr(lp)
 		if _, ok := translateTree(lp, c, u); !ok { // first pass: intern every label
@@ -421,7 +478,14 @@ func cmdTreeCases(args []string) {
 		}
 		cfg := c.Cfg()
 		cfg.Optimizers = logicalplan.NoOptimizers
-		impl, path := runQuery(newImpl(cfg), NewStore(c.Data), cfg, c.Query, c.Window)
+		var impl Canon
+		var path string
+		if *dist {
+			runtime.GOMAXPROCS(c.Procs)
+			impl, path = runQuery(distEng, NewStore(c.Data), cfg, c.Query, c.Window)
+		} else {
+			impl, path = runQuery(newImpl(cfg), NewStore(c.Data), cfg, c.Query, c.Window)
+		}
 		if path != "native" {
 			stats["not-native"]++
 			continue
@@ -474,6 +538,9 @@ func cmdTreeCases(args []string) {
 			}
 		}
 		term, _ := translateTree(lp, c, u) // second pass: the interning is complete
+		if *dist {
+			stats[fmt.Sprintf("remotes-%d", strings.Count(term, "(JRemote"))]++
+		}
 		stats[fmt.Sprintf("depth-%d", strings.Count(term, "(JJoin")+strings.Count(term, "(JMap")+strings.Count(term, "(JCount"))]++
 		cases = append(cases, fmt.Sprintf("  mkTrC %d%%N %d %s %s %s %s", id, shards, coqWindow(c.Window), coqZ(c.EffLookback()), term, expected))
 	}
@@ -495,4 +562,8 @@ func cmdTreeCases(args []string) {
 	fmt.Printf("{%s}\n", strings.Join(parts, ", "))
 }
 
-func init() { commands["treecases"] = cmdTreeCases }
+func init() {
+	commands["treecases"] = cmdTreeCases
+	// the same trees through the distributed engine: 2 or 3 local engines over a random partition
+	commands["disttreecases"] = func(args []string) { cmdTreeCases(append([]string{"--dist"}, args...)) }
+}
